@@ -144,11 +144,22 @@ type Nested struct {
 	M map[string]Wrap
 	Q *Wrap
 }
+
+type ArrRef struct {
+	A [2]*int
+	N int
+}
 `
 	pk.Types = []dcType{{Name: "HandA", Kind: "handwritten", HandCopy: true}, {Name: "Direct", Kind: "struct", Generated: true},
-		{Name: "Wrap", Kind: "struct", Generated: true}, {Name: "Nested", Kind: "struct", Generated: true}}
+		{Name: "Wrap", Kind: "struct", Generated: true}, {Name: "Nested", Kind: "struct", Generated: true},
+		{Name: "ArrRef", Kind: "struct", Generated: true}}
 	return []dcPkg{pk}
 }
+
+// dcForce makes the first package of the next generated program use a given tag layout, so that every
+// run covers them whatever the seed: "no-tag" (no package tag, type-level opt-in), "detached" (the same
+// with every type tag in a comment block of its own)
+var dcForce = ""
 
 // genDeepcopyProgram builds npk packages, package i may use types of packages < i.
 func (g *Gen) genDeepcopyProgram(prefix string, npk int, arrayRefs bool) ([]dcPkg, []string) {
@@ -158,6 +169,10 @@ func (g *Gen) genDeepcopyProgram(prefix string, npk int, arrayRefs bool) ([]dcPk
 		d.pkgs = append(d.pkgs, pk)
 		cur := &d.pkgs[p]
 		pkgTag := g.Chance(0.7)
+		forced := p == 0 && dcForce != ""
+		if forced {
+			pkgTag = false
+		}
 		if pkgTag {
 			cur.Doc = "// +k8s:deepcopy-gen=package\n\n// Package " + pk.Name + " is generated test input.\npackage " + pk.Name + "\n"
 			d.classes["package-tag"] = true
@@ -188,10 +203,18 @@ func (g *Gen) genDeepcopyProgram(prefix string, npk int, arrayRefs bool) ([]dcPk
 		// in a package without the package tag: every type-level tag in a comment block of its own,
 		// separated from the doc comment by a blank line
 		detached := !pkgTag && g.Chance(0.4)
+		if forced {
+			detached = dcForce == "detached"
+		}
+		optedIn := false
 		nt := 2 + g.R.Intn(4)
 		for k := 0; k < nt; k++ {
 			name := fmt.Sprintf("S%d", k)
-			switch g.R.Intn(6) {
+			declKind := g.R.Intn(6)
+			if forced && !optedIn && k == nt-1 {
+				declKind = 5 // the forced layout needs at least one struct to carry the type-level tag
+			}
+			switch declKind {
 			case 0:
 				fmt.Fprintf(&b, "type %s []%s\n\n", fmt.Sprintf("L%d", k), d.fieldType(p, 1, ""))
 				cur.Types = append(cur.Types, dcType{Name: fmt.Sprintf("L%d", k), Kind: "slice", Generated: pkgTag})
@@ -210,7 +233,8 @@ func (g *Gen) genDeepcopyProgram(prefix string, npk int, arrayRefs bool) ([]dcPk
 				tagLine = "// +k8s:deepcopy-gen=false\n"
 				gen = false
 				d.classes["type-opt-out"] = true
-			case !pkgTag && g.Chance(0.6):
+			case !pkgTag && (g.Chance(0.6) || forced && !optedIn):
+				optedIn = true
 				tagLine = "// +k8s:deepcopy-gen=true\n"
 				gen = true
 				d.classes["type-opt-in"] = true
